@@ -481,3 +481,20 @@ Theorem legacy_refuted : exists c, valid c /\ In (-2) (run_with true c) /\ oracl
 Proof. exists w_utf8. split; [split; reflexivity|]. split; [left; reflexivity | vm_compute; reflexivity]. Qed.
 Example w_utf8_fixed : run w_utf8 = [5; -1].
 Proof. vm_compute. reflexivity. Qed.
+
+(* the hypotheses of the theorems are satisfiable by non-trivial cases *)
+Definition ex_var : var := mk_var 3 6 1 (VArr 6 [VNum 6 10; VNum 6 11; VNum 6 12; VNum 6 13]) (2 ^ 16) true.
+Definition ex_subs : list (Z * Z) := [(24, 26); (26, 27); (27, 6)].
+Example ex_write_range :
+  exists x', write ex_subs ex_var 1 13 (Some [49; 58; 50]) (Some (VArr 6 [VNum 6 21; VNum 6 22; VNum 6 23])) = Ok (0, x') /\
+             v_value x' = VArr 6 [VNum 6 10; VNum 6 21; VNum 6 22; VNum 6 13].
+Proof. eexists. split; vm_compute; reflexivity. Qed.
+Example ex_write_rejected : write ex_subs ex_var 1 13 None (Some (VStr (Some [120]))) = Ok (9, ex_var).
+Proof. vm_compute. reflexivity. Qed.
+Example ex_ual_write :
+  exists x', write ex_subs ex_var 1 18 None (Some (VNum 3 1)) = Ok (0, x') /\
+             write ex_subs x' 1 13 None (Some (VNum 6 1)) = Ok (7, x').
+Proof. eexists. split; vm_compute; reflexivity. Qed.
+Example ex_read_utf8 : read false (mk_var 1 12 (-1) (VStr (Some [226; 130; 172; 120])) (-1) false) 1 13 (Some [48; 58; 50]) 0
+                       = Ok (mk_rres 0 (Some (VStr (Some [226; 130; 172])))).
+Proof. vm_compute. reflexivity. Qed.
